@@ -17,7 +17,7 @@ def make(rng, fit_intercept):
     return xs, ys, ws
 
 
-def fit(xs, ys, ws, q, fit_intercept, positive, weighted, dup, max_iter=100, wdtype=float):
+def fit(xs, ys, ws, q, fit_intercept, positive, weighted, dup, max_iter=100, wdtype=float, delta=0.0001):
     from mlinsights.mlmodel import QuantileLinearRegression
     if dup:         # integer weights as repeated rows
         xs2 = [x for x, w in zip(xs, ws) for _ in range(w)]
@@ -26,7 +26,7 @@ def fit(xs, ys, ws, q, fit_intercept, positive, weighted, dup, max_iter=100, wdt
     else:
         X, y = numpy.array(xs, dtype=float).reshape((-1, 1)), numpy.array(ys, dtype=float)
         sw = numpy.array(ws, dtype=wdtype) if weighted else None
-    m = QuantileLinearRegression(quantile=q, max_iter=max_iter, fit_intercept=fit_intercept, positive=positive)
+    m = QuantileLinearRegression(quantile=q, max_iter=max_iter, fit_intercept=fit_intercept, positive=positive, delta=delta)
     with warnings.catch_warnings():
         warnings.simplefilter("ignore")
         m.fit(X, y, sample_weight=sw)
@@ -42,14 +42,21 @@ def one(tid, rng):
     xs, ys, ws = make(rng, fit_intercept)
     if mode == "plain":
         ws = [1] * len(xs)
+    # heavy-tailed noise: two targets far above the rest (a quantile does not care how far), with a coarser IRLS floor
+    outliers = (not positive) and fit_intercept and rng.random() < 0.25
+    delta = 0.0001
+    if outliers:
+        for j in rng.sample(range(len(ys)), 2):
+            ys[j] += 3000
+        delta = 0.01
     # integer weights are given as floats or as an integer array; with positive=True (only the sign is claimed) any
     # number of IRLS passes, the first one included, must respect the constraint
     wdtype = rng.choice([float, numpy.int64, numpy.int32])
     max_iter = rng.choice([1, 2, 100]) if positive else 100
-    m, sc, (X, y, sw) = fit(xs, ys, ws, qa / qb, fit_intercept, positive, mode == "weighted", mode == "dup", max_iter, wdtype)
+    m, sc, (X, y, sw) = fit(xs, ys, ws, qa / qb, fit_intercept, positive, mode == "weighted", mode == "dup", max_iter, wdtype, delta)
     # the fit at the opposite quantile, scored with THIS quantile's loss
     from mlinsights.mlmodel import QuantileLinearRegression
-    o, _, _ = fit(xs, ys, ws, 1 - qa / qb, fit_intercept, positive, mode == "weighted", mode == "dup", max_iter, wdtype)
+    o, _, _ = fit(xs, ys, ws, 1 - qa / qb, fit_intercept, positive, mode == "weighted", mode == "dup", max_iter, wdtype, delta)
     probe = QuantileLinearRegression(quantile=qa / qb, fit_intercept=fit_intercept)
     probe.coef_, probe.intercept_ = o.coef_, o.intercept_
     with warnings.catch_warnings():
@@ -57,9 +64,9 @@ def one(tid, rng):
         so = float(probe.score(X, y, sample_weight=sw))
     s = float(numpy.ravel(m.coef_)[0])
     c = float(numpy.ravel(m.intercept_)[0]) if numpy.ndim(m.intercept_) else float(m.intercept_)
-    return dict(id=tid, X=xs, Y=ys, W=ws, qa=qa, qb=qb, fit_intercept=fit_intercept, positive=positive, full=max_iter == 100,
+    return dict(id=tid, X=xs, Y=ys, W=ws, qa=qa, qb=qb, fit_intercept=fit_intercept, positive=positive, full=max_iter == 100 and not outliers, outliers=outliers,
                 s=int(round(s * 100)), c=int(round(c * 100)), score=int(round(sc * 100)), score_other=int(round(so * 100)),
-                site=SITE, sig="q=%d/%d %s intercept=%s positive=%s" % (qa, qb, mode, fit_intercept, positive), mode=mode)
+                site=SITE, sig="q=%d/%d %s intercept=%s positive=%s" % (qa, qb, mode, fit_intercept, positive) + (" outliers" if outliers else ""), mode=mode)
 
 
 def classify(t, v):
